@@ -35,6 +35,16 @@ def arrays_identical(a, b):
         return 'names/length differ: %r/%d vs %r/%d' % (a.dtype.names, len(a), b.dtype.names, len(b))
     for n in a.dtype.names:
         da, db = a.dtype[n], b.dtype[n]
+        ba = da.subdtype[0] if da.subdtype else da
+        if ba.kind == 'U':
+            # text columns given as str (numpy 'U', what astropy Tables hold): the file format has one string type, so
+            # they read back as bytes of the same width IN CHARACTERS and the same text
+            want = np.dtype((('S%d' % (ba.itemsize // 4)), da.subdtype[1])) if da.subdtype else np.dtype('S%d' % (ba.itemsize // 4))
+            if db != want:
+                return 'column %s: wrote %s, read %s (expected %s)' % (n, da, db, want)
+            if not np.all(np.char.encode(np.asarray(a[n]), 'ascii') == np.asarray(b[n])):
+                return 'column %s values differ: wrote %r read %r' % (n, a[n].tolist(), b[n].tolist())
+            continue
         if da != db:
             return 'column %s dtype %s vs %s' % (n, da, db)
         x, y = np.asarray(a[n]), np.asarray(b[n])
@@ -55,7 +65,9 @@ def write_and_read(ctx, st, texts, tag):
     from pydl.pydlutils.yanny import yanny, write_ndarray_to_yanny, write_table_yanny, read_table_yanny
     from astropy.table import Table
     doc, canon = st['doc'], st['canon']
-    names, arrays, enums, hdr = Y.doc_to_arrays(doc)
+    # every third document hands its text columns over as str ('U') instead of bytes ('S'): same values, same file
+    uni = tag.isdigit() and int(tag) % 3 == 1
+    names, arrays, enums, hdr = Y.doc_to_arrays(doc, unicode_strings=uni)
     problems = []
     path = os.path.join(ctx.scratch, 'w_%s.par' % tag)
     if os.path.exists(path):
